@@ -170,6 +170,10 @@ def gen_base(ctx, MEMBER, full):
             yield dict(part='batchreq', doc=[req_elems[i] for i in idx])
         for idx in itertools.product(range(len(resp_elems)), repeat=n):
             yield dict(part='batchresp', doc=[resp_elems[i] for i in idx])
+    # several ids repeated in one batch, of one type and of different types
+    for ids in ([1, 'a', 1, 'a'], [1, '1', 1, '1'], [0, '', 0, ''], [2, 1, 2, 1], ['b', 'a', 'b', 'a'], [1, 1, 1, 'x', 'x']):
+        yield dict(part='batchreq', doc=[{'jsonrpc': '2.0', 'method': 'm', 'id': i} for i in ids])
+        yield dict(part='batchresp', doc=[{'jsonrpc': '2.0', 'id': i, 'result': 1} for i in ids])
     # batch-level error objects
     for j, i, e, r in itertools.product(['2.0', '1.0', A, 2], [A, None, 1, 0], ERRORS, [A, None, 1]):
         yield dict(part='batchresp', doc=mk(jsonrpc=j, id=i, error=e, result=r))
